@@ -16,7 +16,7 @@ from .prng import Rng, mix
 
 VERIF = buildmod.VERIF
 SHM = "/dev/shm"
-TOOL_TIMEOUT = 20.0
+TOOL_TIMEOUT = 60.0
 
 
 class Ctx:
